@@ -249,6 +249,18 @@ func (g *G) NodeList() *sbom.NodeList {
 			}
 			nl.Edges = append(nl.Edges, e)
 		}
+		// dependency edges between arbitrary nodes (both formats can express them); targets may
+		// repeat and are unsorted, and a source may be any node, not only the root
+		for k := g.R.Intn(4); k > 0 && n > 1; k-- {
+			e := &sbom.Edge{Type: sbom.Edge_dependsOn, From: g.id(g.R.Intn(n))}
+			for j := 1 + g.R.Intn(3); j > 0; j-- {
+				e.To = append(e.To, g.id(g.R.Intn(n)))
+			}
+			if g.R.Intn(3) == 0 {
+				e.To = append(e.To, e.To[0])
+			}
+			nl.Edges = append(nl.Edges, e)
+		}
 		return nl
 	}
 	ne := g.R.Intn(2*n + 1)
